@@ -48,7 +48,7 @@ def _scenario(sid, txt, pat, prm, kind):
 
 def scenarios(sc, tier, seed):
     scs = []
-    for cfg in ('MC_SlotCache_DevReclaim.cfg', 'MC_SlotCache_DevQueue.cfg', 'MC_SlotCache_DevFreeStart.cfg'):
+    for cfg in ('MC_SlotCache_DevReclaim.cfg', 'MC_SlotCache_DevQueue.cfg', 'MC_SlotCache_DevFreeStart.cfg', 'MC_SlotCache_DevLateHup.cfg'):
         o, _ = tlc_run(sc, cfg, cfg[:-4], workers=4, timeout=900)
         if 'is violated' not in o:
             raise vlib.Inconclusive('no counterexample from %s' % cfg)
@@ -84,7 +84,7 @@ def impl_check(sc, runs, tag):
     for f in ('SlotCache.tla', 'TraceSlotCacheImpl.tla'):
         shutil.copy(os.path.join(vlib.SPEC, f), wd)
     open(os.path.join(wd, 'TraceSlotCacheImpl.cfg'), 'w').write(
-        'SPECIFICATION TSpec\nPOSTCONDITION Report\nCHECK_DEADLOCK FALSE\nCONSTANTS\n  Conns = {"A", "B", "G"}\n  Supply = 2\n  Block = 38\n  MaxSend = 2\n  Dev_ReclaimOnEmpty = FALSE\n  Dev_QueueBeforeReset = FALSE\n  Dev_FreeAtHandlerStart = FALSE\n')
+        'SPECIFICATION TSpec\nPOSTCONDITION Report\nCHECK_DEADLOCK FALSE\nCONSTANTS\n  Conns = {"A", "B", "G"}\n  Supply = 2\n  Block = 38\n  MaxSend = 2\n  Dev_ReclaimOnEmpty = FALSE\n  Dev_QueueBeforeReset = FALSE\n  Dev_FreeAtHandlerStart = FALSE\n  Dev_LateOnHup = FALSE\n')
     z4 = [0, 0, 0, 0]
     blank = {'g': '', 'c': '', 'pt': 0, 'supply': 0, 'st': z4, 'ow': z4, 'dt': z4, 'np': 0, 'pend': z4, 'nr': 0, 'ret': z4}
     n, starts = 0, []
